@@ -45,6 +45,7 @@ EXPLANATION = (
     "(R7) = C13.E3 client cap on body bytes. (R8) = C07.S4 pump: every decrypted record is handed over at once. "
     "(R9) = C13.E2: the client hands out the received body bytes as bytes / decoded text for 2x statuses. "
     "(R10) no method of GeminiResponse (e.g. __post_init__) stores into status / meta / body anything but the field itself or a byte-preserving conversion: the response object is a carrier, and a rewrite there changes every response before the sink sees it."
+    ' (R11) = C15.X2: the request timer is disarmed at every dispatch / consultation.'
 )
 
 PARTIAL_WRITE = {
@@ -206,8 +207,17 @@ def rule_r2(chk: Check) -> None:
         # `not pending` edge; with a non-empty read the write happens and the loop continues
         from ..paths import BoolFacts, boolfacts_step, walk_paths
 
+        starts = [b for b, lab in g.succ[r.id] if lab not in ("exc", "raise")]
+        if r.kind == "test":
+            # `while chunk := bio_read(...)`: the read is the loop test; a non-empty read is its true edge
+            t_, neg = r.ast, False
+            while isinstance(t_, ast.UnaryOp) and isinstance(t_.op, ast.Not):
+                t_, neg = t_.operand, not neg
+            if isinstance(t_, ast.NamedExpr) and isinstance(t_.target, ast.Name):
+                var = t_.target.id
+                starts = [b for b, lab in g.succ[r.id] if lab == ("F" if neg else "T")]
         init = BoolFacts({var: True} if var else {}, {var: False} if var else {})
-        for s0 in [b for b, lab in g.succ[r.id] if lab not in ("exc", "raise")]:
+        for s0 in starts:
             for path, _ in walk_paths(g, s0, init, boolfacts_step, stop=lambda n: n.id == r.id or n.kind == "exit", follow=normal_only):
                 if path[-1][0].kind == "exit":
                     ok = False  # left the loop although data was pending
@@ -423,5 +433,8 @@ def run(chk: Check) -> None:
 
     response_fields_immutable(chk, "R10", "the bytes the client receives are not the ones the handler returned (a bytes body decoded with the declared charset is written back as UTF-8)")
     reuse(chk, rule_e3, "R7", "the client's size cap is applied to the buffered body (len(self.buffer) after the header was split off), is finite, and exceeding it reports an error and closes (= C13.E3)", ("E3",))
+    from .c15 import rule_x2
+
+    reuse(chk, rule_x2, "R11", "the request timer is disarmed when the request is handed to the handler (= C15.X2, machine): otherwise a handler that answers after the deadline has its response replaced by `40 Request timeout`", ("X2",))
     chk.trusted = ["CPython ast parser", "engine resolver (attribute annotations)", "asyncio transports deliver everything given to write() before close() completes", "OpenSSL.SSL.Connection.sendall loops until everything is written"]
     chk.assumptions = ["record/buffer boundary behaviour and back-pressure are not decided"]
